@@ -156,7 +156,9 @@ class MCMC(Identifiable, Runnable):
                 if op.id == op_state["id"]:
                     op.load_state_dict(op_state)
                     break
-        self._epoch = state_dict["iteration"]
+        # a checkpoint is written at the end of an iteration: "iteration" is the
+        # last completed iteration and the run continues with the next one
+        self._epoch = state_dict["iteration"] + 1
 
     def save_full_state(self) -> None:
         """Save the full state of the MCMC algorithm."""
